@@ -1,3 +1,4 @@
+// @feature ctx_impls
 // @mode body line
 // @mode bodymemo line run_memo
 //! mode `body`: `body <tok>…` = the tokens of ONE method body.  Parsed three times through the public
